@@ -289,32 +289,43 @@ func (c *FnCtx) mergeStates(ins []incoming) *State {
 			out.nonNil[k] = true
 		}
 	}
-	for k, g0 := range ins[0].st.ghost {
-		terms := []string{g0}
-		ok, same := true, true
-		for _, in := range ins[1:] {
+	gkeys := map[string]bool{}
+	for _, in := range ins {
+		for k := range in.st.ghost {
+			gkeys[k] = true
+		}
+	}
+	for _, k := range sortedKeys(gkeys) {
+		terms := make([]string, len(ins))
+		same, ok := true, true
+		for i, in := range ins {
 			g, has := in.st.ghost[k]
 			if !has {
-				ok = false
-				break
+				// a ghost variable not yet touched on this path has its initial value; the visited
+				// sets of range loops exist only on paths that started the loop
+				if strings.HasPrefix(k, "visited.") {
+					ok = false
+					break
+				}
+				g = c.ghostInit(k)
 			}
-			if g != g0 {
+			terms[i] = g
+			if g != terms[0] {
 				same = false
 			}
-			terms = append(terms, g)
 		}
 		if !ok {
 			continue
 		}
 		if same {
-			out.ghost[k] = g0
+			out.ghost[k] = terms[0]
 			continue
 		}
 		t := terms[len(ins)-1]
 		for i := len(ins) - 2; i >= 0; i-- {
 			t = ite(ins[i].cond, terms[i], t)
 		}
-		out.ghost[k] = c.smt.define("ghost_"+k, c.ghostSorts[k], t)
+		out.ghost[k] = c.smt.define("ghost_"+sanitize(k), c.ghostSorts[k], t)
 	}
 	return out
 }
